@@ -398,6 +398,21 @@ fn masks_for(n: usize, rng: &mut StdRng, tier: &str) -> Vec<Option<Vec<bool>>> {
             let p = [0.5, 0.2, 0.8, 0.35, 0.65, 0.1][r % 6];
             v.push(Some((0..n).map(|_| rng.gen_bool(p)).collect()));
         }
+        // sparse masks: exactly two / three / four selected cells (special-cased paths for "few active cells")
+        for k in 2..=4usize {
+            if n > 2 * k {
+                let mut m = vec![false; n];
+                let mut placed = 0;
+                while placed < k {
+                    let i = rng.gen_range(0..n);
+                    if !m[i] {
+                        m[i] = true;
+                        placed += 1;
+                    }
+                }
+                v.push(Some(m));
+            }
+        }
         // lower half off / upper half off
         v.push(Some((0..n).map(|i| i >= n / 2).collect()));
         v.push(Some((0..n).map(|i| i % 3 != 0).collect()));
@@ -897,10 +912,16 @@ pub fn main_tess(args: &[String]) -> i32 {
         i += 1;
     }
     install_quiet_panic_hook();
+    let inputs_from_file = inputs_path.clone();
     let mut inputs = match inputs_path {
         Some(p) => read_inputs(&p),
         None => float_inputs(seed, count, nmax, &[1, 2, 3, 3]),
     };
+    // a cell with more than 256 faces (count thresholds in per-cell bookkeeping); recorded for the full run only
+    if inputs_from_file.is_none() {
+        let id = inputs.len();
+        inputs.push(refine_input(id, 3, 270, seed ^ 0x2F));
+    }
     // C05 only: generators closer than 1e-8 of the box (known finding F11: the builder is not robust there)
     {
         let mut r2 = StdRng::seed_from_u64(seed ^ 0xC105E);
@@ -950,7 +971,10 @@ pub fn main_tess(args: &[String]) -> i32 {
     let mut masks_total = 0usize;
     let mut cells_total = 0usize;
     for inp in inputs.iter() {
-        let masks = masks_for(inp.gens.len(), &mut rng, &tier);
+        let mut masks = masks_for(inp.gens.len(), &mut rng, &tier);
+        if inp.kind == "refine" {
+            masks.truncate(1); // the full run only (a 270-cell record per mask is large)
+        }
         for (mi, m) in masks.iter().enumerate() {
             masks_total += 1;
             let (line, fails, panic) = record(inp, m, mi == 0);
